@@ -4,6 +4,7 @@ use crate::fw::*;
 use crate::gen::*;
 use crate::oracle::{Poly, Pt};
 use crate::{ensure, ensure_r};
+use engeom::geom2::Line2;
 use engeom::Curve2;
 use proptest::prelude::*;
 use serde::{Deserialize, Serialize};
@@ -307,6 +308,37 @@ fn check(case: &Case) -> Verdict {
                     Ok(g) => g,
                     Err(m) => return Verdict::fail("C04/between_lengths/panic", format!("between_lengths({la:e},{lb:e}) panicked: {m}")),
                 };
+                // consumer: the airfoil helper that cuts the section at the two ends of a spanning ray and keeps the short
+                // piece.  With the ray drawn between the two stations it must return what the two orders of
+                // between_lengths give: the first of (l0 -> l1), (l1 -> l0) that exists and is shorter than the stated
+                // fraction of the perimeter, or nothing
+                if la >= 0.0 && lb >= 0.0 && la <= total && lb <= total {
+                    if let (Some(sa), Some(sb)) = (cur.curve.at_length(la), cur.curve.at_length(lb)) {
+                        let (pa, pb) = (sa.point(), sb.point());
+                        if (pa - pb).norm() > 100.0 * tol {
+                            let ray = engeom::geom2::polyline2::SpanningRay::new(pa, pb);
+                            let station = engeom::airfoil::InscribedCircle::new(ray, pb, pa, engeom::Circle2::from_point(pa + (pb - pa) * 0.5, 0.5 * (pb - pa).norm()));
+                            let frac = if (la + lb) > total { 0.25 } else { 0.6 };
+                            let l0 = cur.curve.at_closest_to_point(&station.spanning_ray.origin()).length_along();
+                            let l1 = cur.curve.at_closest_to_point(&(station.spanning_ray.origin() + station.spanning_ray.dir())).length_along();
+                            if let (Ok(c0), Ok(c1)) = (guarded(|| cur.curve.between_lengths(l0, l1)), guarded(|| cur.curve.between_lengths(l1, l0))) {
+                                let want = [c0, c1].into_iter().flatten().find(|c| c.length() < total * frac);
+                                let got_sub = match guarded(|| engeom::airfoil::helpers::extract_edge_sub_curve(&cur.curve, &station, if frac == 0.25 { None } else { Some(frac) })) {
+                                    Ok(g) => g,
+                                    Err(m) => return Verdict::fail("C04/extract_edge_sub_curve/panic", m),
+                                };
+                                match (&want, &got_sub) {
+                                    (None, None) => {}
+                                    (Some(w), Some(g)) => ensure!(w.points() == g.points(), "C04/extract_edge_sub_curve/wrong_piece", "stations {l0:e} and {l1:e} of a curve of length {total:e}: the helper returns a piece of length {:e}, the short piece between the stations has length {:e}", g.length(), w.length()),
+                                    (Some(w), None) => return Verdict::fail("C04/extract_edge_sub_curve/well_posed_returned_none", format!("stations {l0:e} and {l1:e} of a{} curve of length {total:e}: a piece of length {:e} (shorter than {frac} of the perimeter) lies between them, the helper returns nothing", if cur.closed { " closed" } else { "n open" }, w.length())),
+                                    (None, Some(g)) => return Verdict::fail("C04/extract_edge_sub_curve/unexpected_piece", format!("the helper returns a piece of length {:e}; neither order of the two stations gives a piece shorter than {frac} of the perimeter {total:e}", g.length())),
+                                }
+                                cx.label("edge_sub_curve");
+                                cx.label_if(!cur.closed && l0 > l1, "edge_sub_curve_open_against_order");
+                            }
+                        }
+                    }
+                }
                 match do_between(&mut cx, "between_lengths", &cur, la, lb, got) {
                     Ok(p) => {
                         if p.is_some() {
